@@ -1108,6 +1108,79 @@ def py_case_label_ok(r):
     return (r["mode"] == "negative") == want
 
 
+def content_oracle(run):
+    """For every real case: the label each of its parts deserves, reconstructed independently of the model from the
+    recorded cover_schema_iter yields and the order in which _iter_coverage_cases visits them.
+    -> [{"mode", "comps": {kind: mode}, "why", "structural", "varied_kind", "varied_negative", "varied_index"} | None]"""
+    np_, nb = len(run["params"]), run["n_bodies"]
+    calls = run["calls"]
+    pvals = {(loc, name): [g.generation_mode.value for g in calls[i]["values"]] for i, (loc, name, _) in enumerate(run["params"])}
+    bvals = {}
+    for j, mt in enumerate(run["media_types"]):
+        if np_ + j < len(calls):
+            bvals.setdefault(mt, [g.generation_mode.value for g in calls[np_ + j]["values"]])
+    first_body = next((v[0] for mt in run["media_types"] for v in [bvals.get(mt, [])] if v), None)
+    loc_of = {v: k for k, v in KIND_OF.items()}
+    budget = sum(len(v) for v in bvals.values()) + sum(max(len(v) - 1, 0) for v in pvals.values())
+    var_counter, body_counter, seen_values = {}, {}, 0
+    out = []
+    for c in run["cases"]:
+        d = c["desc"]
+        structural = d.startswith(("missing:", "duplicate:", "unspecified-method:"))
+        template_like = structural or d in ("default-positive", "only-required") or d.startswith(("required-and-optional:", "required-and-n:"))
+        varied_kind, varied_label, varied_index, generated = None, None, 0, False
+        if not template_like:
+            seen_values += 1
+            if seen_values <= budget:
+                if c["parameter_location"] == "body":
+                    k = body_counter.get(c["parameter"], 0)
+                    body_counter[c["parameter"]] = k + 1
+                    vals = bvals.get(c["parameter"], [])
+                    if k >= len(vals):
+                        out.append(None)
+                        continue
+                    varied_kind, varied_label, varied_index = "body", vals[k], k
+                else:
+                    p = (c["parameter_location"], c["parameter"])
+                    k = var_counter.get(p, 0) + 1
+                    var_counter[p] = k
+                    vals = pvals.get(p, [])
+                    if k >= len(vals):
+                        out.append(None)
+                        continue
+                    varied_kind, varied_label, varied_index = KIND_OF.get(p[0]), vals[k], k
+            else:
+                generated = True
+                varied_kind = KIND_OF.get(c["parameter_location"] or "")
+        comps, why = {}, {}
+        for kind, names in c["containers"].items():
+            if generated and kind == varied_kind:
+                comps[kind], why[kind] = "negative", "container produced by a negative-only cover_schema_iter"
+                continue
+            neg = []
+            for name in names:
+                p = (loc_of.get(kind), name)
+                if kind == varied_kind and c["parameter"] == name and varied_label is not None:
+                    label = varied_label
+                else:
+                    label = (pvals.get(p) or ["positive"])[0]
+                if label == "negative":
+                    neg.append(name)
+            comps[kind] = "negative" if neg else "positive"
+            why[kind] = f"negative values: {neg}" if neg else "all values positive"
+        if structural and d.startswith(("missing:", "duplicate:")):
+            k = KIND_OF.get(c["parameter_location"] or "")
+            comps[k], why[k] = "negative", "parameter removed" if d.startswith("missing:") else "parameter duplicated"
+        if c["has_body"]:
+            label = varied_label if varied_kind == "body" else first_body
+            if label is not None:
+                comps["body"], why["body"] = label, "label of the body value"
+        mode = "negative" if structural or any(v == "negative" for v in comps.values()) else "positive"
+        out.append({"mode": mode, "comps": comps, "why": why, "structural": structural, "varied_kind": varied_kind,
+                    "varied_negative": varied_label == "negative" or generated, "varied_index": varied_index})
+    return out
+
+
 def detect_body_variant(chk):
     run = run_cases([], [("application/json", {"type": "integer", "minimum": 0, "maximum": 3})], ["post"], "PN")
     bad = any(c["parameter_location"] == "body" and c["comps"].get("body") == "negative" and c["mode"] == "positive"
@@ -1148,41 +1221,44 @@ def cases_mechanism(chk, drv, ops, vb):
                              {"n": len(real), "first_diff": real[i] if i < len(real) else None})
         else:
             chk.feature(f"{mech}:agree")
-        # ---- replay: the statement read on the real metadata, and on the contents-by-label of the (agreeing) model
+        # ---- replay: (1) independent Python reading of the statement on the real cases: which parts of each case carry a
+        #      negative label is reconstructed from the recorded cover_schema_iter yields; (2) the Lean specification
+        #      (caseLabelOk / compsOk) on the contents-by-label of the model when it agrees with the real cases
+        expected = content_oracle(run)
         for i, r in enumerate(real):
-            ok = py_case_label_ok(r)
+            exp = expected[i]
+            ok = exp is None or (r["mode"] == exp["mode"] and all(r["comps"].get(k) == v for k, v in exp["comps"].items())
+                                 and set(r["comps"]) == set(exp["comps"]))
             chk.feature(f"{mech}:case-label:{'ok' if ok else 'WRONG'}")
-            if not ok:
-                if r["parameter_location"] == "body" and r["comps"].get("body") == "negative" and r["mode"] == "positive":
-                    sig = KF_BODY
-                elif r["mode"] == "positive":
-                    sig = KF_TEMPLATE
-                else:
-                    sig = "C03:_iter_coverage_cases:negative-case-without-negative-part"
-                chk.violation(sig, f"case '{r['text']}' is labelled {r['mode']} but its components are {r['comps']}",
-                              {"mechanism": "cases", **inp, "case_index": i, "case": {k: v for k, v in r.items() if k != "values"}})
-            if agree:
-                spec = mc[i].get("spec", {})
-                if spec and not spec.get("comps_ok", True):
-                    # with_container overwrote the label of the very container the case varies (known shape F8c)?
-                    varied = KIND_OF.get(r["parameter_location"] or "")
-                    content = mc[i]["contents"].get(varied or "", {})
-                    hides = (varied is not None and r["comps"].get(varied) == "positive"
-                             and any(m_ == "negative" for _, m_ in content.get("slots", []))
-                             and all(r["comps"].get(k_) == ("negative" if any(m_ == "negative" for _, m_ in c_.get("slots", [])) or
-                                                           "duplicated" in c_ or "removed" in c_ or c_.get("generated") == "negative" or
-                                                           c_.get("body") == "negative" else "positive")
-                                     for k_, c_ in mc[i]["contents"].items() if k_ != varied))
+            case_view = {k: v for k, v in r.items() if k != "values"}
+            if exp is not None:
+                bad_kinds = [k for k in set(exp["comps"]) | set(r["comps"]) if r["comps"].get(k) != exp["comps"].get(k)]
+                for k in bad_kinds:
+                    hides = (r["comps"].get(k) == "positive" and exp["comps"].get(k) == "negative"
+                             and exp["varied_kind"] == k and not exp["varied_negative"])
                     chk.violation(KF_OVERWRITE if hides else "C03:Template:component-label-differs-from-contents",
-                                  f"case '{r['text']}': component labels {r['comps']} "
-                                  f"disagree with the labels of the values placed in the containers {mc[i]['contents']}",
-                                  {"mechanism": "cases", **inp, "case_index": i, "case": {k: v for k, v in r.items() if k != "values"},
-                                   "contents": mc[i]["contents"]})
-                if spec and spec.get("comps_ok", True) and not spec.get("label_ok", True) and ok:
-                    chk.violation("C03:_iter_coverage_cases:case-label-differs-from-contents",
-                                  f"case '{r['text']}' labelled {r['mode']} but contents are {mc[i]['contents']}",
-                                  {"mechanism": "cases", **inp, "case_index": i, "case": {k: v for k, v in r.items() if k != "values"},
-                                   "contents": mc[i]["contents"]})
+                                  f"case '{r['text']}': component '{k}' is labelled {r['comps'].get(k)} but what was placed in it "
+                                  f"is {exp['comps'].get(k)} ({exp['why'].get(k)})",
+                                  {"mechanism": "cases", **inp, "case_index": i, "case": case_view, "expected": exp})
+                if r["mode"] != exp["mode"]:
+                    if r["mode"] == "negative":
+                        sig = "C03:_iter_coverage_cases:negative-case-without-negative-part"
+                    elif exp["structural"]:
+                        sig = "C03:_iter_coverage_cases:structural-negative-case-labelled-positive"
+                    elif exp["varied_negative"]:
+                        sig = KF_BODY if exp["varied_kind"] == "body" and exp["varied_index"] >= 1 else \
+                            "C03:_iter_coverage_cases:case-label-ignores-varied-part"
+                    else:
+                        sig = KF_TEMPLATE
+                    chk.violation(sig, f"case '{r['text']}' is labelled {r['mode']} but its parts are {exp['comps']} "
+                                  f"({exp['why']}){' and it is structurally negative' if exp['structural'] else ''}",
+                                  {"mechanism": "cases", **inp, "case_index": i, "case": case_view, "expected": exp})
+            if agree and exp is not None:
+                spec = mc[i].get("spec", {})
+                lean_ok = spec.get("label_ok", True) and spec.get("comps_ok", True)
+                if lean_ok != ok:
+                    raise InfraError(f"Lean case specification and the Python reading disagree on case {i} of {inp}: "
+                                     f"lean={spec} python_ok={ok} expected={exp} real={case_view}")
             # "Incorrect type" for a string-typed parameter of a string-valued location: what is sent is a string
             if r["mode"] == "negative" and r["desc"] == "incorrect-type" and r["parameter_location"] in KIND_OF:
                 decl = next((p for p in ps if p[0] == r["parameter_location"] and p[1] == r["parameter"]), None)
